@@ -304,6 +304,20 @@ func (p *parser) parsePermissionExpressions(finalToken itemType, depth int) *ast
 	}
 	var root *ast.SubjectSetRewrite
 
+	// Operator precedence as in TypeScript: "&&" binds tighter than "||". openOr
+	// is the "||" node created by an operator at this nesting level (nil if root
+	// is anything else, e.g. a parenthesised group); while andTerm is set,
+	// operands belong to that "&&" node (the last operand of openOr) instead of
+	// root.
+	var openOr, andTerm *ast.SubjectSetRewrite
+	add := func(child ast.Child) {
+		if andTerm != nil {
+			andTerm.Children = append(andTerm.Children, child)
+			return
+		}
+		root = addChild(root, child)
+	}
+
 	// We only expect an expression in the beginning and after a binary
 	// operator.
 	expectExpression := true
@@ -320,7 +334,7 @@ func (p *parser) parsePermissionExpressions(finalToken itemType, depth int) *ast
 			if child == nil {
 				return nil
 			}
-			root = addChild(root, child)
+			add(child)
 			expectExpression = false
 
 		case item.Typ == finalToken:
@@ -340,11 +354,33 @@ func (p *parser) parsePermissionExpressions(finalToken itemType, depth int) *ast
 			if root == nil {
 				return nil
 			}
+			if item.Typ == itemOperatorAnd && andTerm != nil {
+				// a || b && c && d: keep adding operands to the same "&&" term
+				expectExpression = true
+				continue
+			}
+			if item.Typ == itemOperatorAnd && openOr != nil && root == openOr && len(root.Children) > 1 {
+				// a || b && c  means  a || (b && c): the "&&" takes the last
+				// operand of the "||" instead of the whole expression so far
+				last := len(root.Children) - 1
+				andTerm = &ast.SubjectSetRewrite{
+					Operation: ast.OperatorAnd,
+					Children:  []ast.Child{root.Children[last]},
+				}
+				root.Children[last] = andTerm
+				expectExpression = true
+				continue
+			}
+			andTerm = nil
 			newRoot := &ast.SubjectSetRewrite{
 				Operation: setOperation(item.Typ),
 				Children:  []ast.Child{root},
 			}
 			root = newRoot
+			openOr = nil
+			if item.Typ == itemOperatorOr {
+				openOr = newRoot
+			}
 			expectExpression = true
 
 		// A "not" creates an AST node where the children are either a
@@ -355,7 +391,7 @@ func (p *parser) parsePermissionExpressions(finalToken itemType, depth int) *ast
 			if child == nil {
 				return nil
 			}
-			root = addChild(root, child)
+			add(child)
 			expectExpression = false
 
 		default:
@@ -369,7 +405,7 @@ func (p *parser) parsePermissionExpressions(finalToken itemType, depth int) *ast
 			if child == nil {
 				return nil
 			}
-			root = addChild(root, child)
+			add(child)
 			expectExpression = true
 		}
 	}
